@@ -128,6 +128,21 @@ func C12(run *report.Run) {
  "components":{"schemas":{
    "Custom":{"type":"string","x-goag-go-type":"pkg.Custom","x-go-type":"other.Custom","x-go-name":"CustomName","x-order":1,"x-nullable":false,"x-goag-go-time-format":"2006-01-02","x-go-time-format":"rfc3339"},
    "Holder":{"type":"object","x-b":1,"x-a":2,"properties":{"custom":{"$ref":"#/components/schemas/Custom"},"t":{"type":"string","format":"date-time","x-goag-go-time-format":"2006-01-02","x-go-time-format":"rfc822","x-a":1}}}}}}`)})
+	// many operations that each register inline nested object types (the order in which hoisted types are
+	// declared must not depend on anything but the document)
+	{
+		base, _, _ := cells.Base()
+		base.Paths = nil
+		nested := func(i int) *spec.Schema {
+			return spec.Obj(spec.P(fmt.Sprintf("outer%d", i), spec.Obj(spec.P("inner", spec.Obj(spec.P("leaf", spec.T("string")))), spec.P("list", spec.Arr(spec.Obj(spec.P("k", spec.T("string"))))))))
+		}
+		for i := 0; i < 12; i++ {
+			base.Paths = append(base.Paths, &spec.PathItem{Template: fmt.Sprintf("/r%02d", i), Ops: []*spec.Op{
+				{Method: "POST", Body: &spec.Body{Schema: nested(i), Required: true}, Responses: []*spec.Response{{Status: "200", Desc: "r", Schema: nested(i + 100)}, {Status: "default", Desc: "d"}}},
+				{Method: "PUT", Body: &spec.Body{Schema: nested(i + 200), Required: true}, Responses: []*spec.Response{{Status: "default", Desc: "d"}}}}})
+		}
+		specs = append(specs, c12spec{ID: "inlinefat", Spec: base.YAML(), Client: true, DNE: true})
+	}
 	pick := map[string]int{}
 	for _, c := range C01Cells() {
 		fam := c.Attrs["fam"]
